@@ -327,6 +327,15 @@ class Det(Cw):
     def __init__(self, nbase=40):
         Cw.__init__(self, nbase=nbase, monitor=False, mem=False)
 
+    def build(self):
+        # eng_det.c is a one-line #include of eng_cw.c: rebuild when that changes
+        import os
+        from lib import core
+        a, b = os.path.join(core.HARNESS, 'eng_det.c'), os.path.join(core.HARNESS, 'eng_cw.c')
+        if os.path.getmtime(b) > os.path.getmtime(a):
+            os.utime(a)
+        return Engine.build(self)
+
     def scenario(self, rng, fmt, flt, opts, bpb, bil):
         ops = ['new', f'fmt {fmt}'] + ([f'filter {flt}'] if flt != '-' else []) + [f'opt {o}' for o in opts] + [f'bpb {bpb}', f'bil {bil}', 'script', 'open']
         if fmt == 'raw':
